@@ -185,6 +185,8 @@ func (e *Engine) strBinop(op token.Token, x, y Value) Value {
 		case token.EQL, token.NEQ:
 			var r Value
 			switch {
+			case xop && yop && (xo.Tag == "cat" || yo.Tag == "cat"):
+				r = e.catEquals(x, y)
 			case xop && yop:
 				if xo.Tag != yo.Tag {
 					r = false
@@ -208,6 +210,8 @@ func (e *Engine) strBinop(op token.Token, x, y Value) Value {
 				} else {
 					r = false
 				}
+			case xop && xo.Tag == "cat", yop && yo.Tag == "cat":
+				r = e.catEquals(x, y)
 			default:
 				panic(engineErr("comparison of opaque string with %s", describeValue(y)))
 			}
@@ -222,6 +226,7 @@ func (e *Engine) strBinop(op token.Token, x, y Value) Value {
 			if yop && xok && xs == "" {
 				return y
 			}
+			return e.catConcat(x, y)
 		}
 		panic(engineErr("operation %s on opaque string", op))
 	}
@@ -794,4 +799,83 @@ func (e *Engine) scanInteger(sv Value) (Value, bool) {
 		sum.Hi = hi.I
 	}
 	return e.simplify(sum, nil), true
+}
+
+// ---- concatenations that contain opaque strings ("cat")
+//
+// x + y with an opaque operand is kept as the list of its parts. Two such
+// strings of the same shape are equal iff their parts are (opaque parts by their
+// own notion of equality, e.g. documents as JSON values - the marshalled text of
+// equal values is identical); any other comparison falls back to SMT strings in
+// which every opaque part is an unconstrained non-empty string variable (an
+// over-approximation: both outcomes stay possible, and whatever is found is
+// replayed natively before it is reported).
+
+func catParts(v Value) []Value {
+	if o, ok := v.(*OpaqueStr); ok && o.Tag == "cat" {
+		return o.Payload.(Tuple)
+	}
+	return []Value{v}
+}
+
+func (e *Engine) catConcat(x, y Value) Value {
+	var parts []Value
+	for _, p := range append(append([]Value{}, catParts(x)...), catParts(y)...) {
+		if n := len(parts); n > 0 {
+			_, lastOpaque := parts[n-1].(*OpaqueStr)
+			_, curOpaque := p.(*OpaqueStr)
+			if !lastOpaque && !curOpaque {
+				parts[n-1] = e.strBinop(token.ADD, parts[n-1], p)
+				continue
+			}
+		}
+		parts = append(parts, p)
+	}
+	return &OpaqueStr{Tag: "cat", Payload: Tuple(parts)}
+}
+
+func (e *Engine) catEquals(x, y Value) Value {
+	px, py := catParts(x), catParts(y)
+	same := len(px) == len(py)
+	if same {
+		for i := range px {
+			_, ox := px[i].(*OpaqueStr)
+			_, oy := py[i].(*OpaqueStr)
+			if ox != oy {
+				same = false
+			}
+		}
+	}
+	if same {
+		var r Value = true
+		for i := range px {
+			r = e.andV(r, e.strBinop(token.EQL, px[i], py[i]))
+		}
+		return r
+	}
+	return e.simplify(e.ts.Eq(e.catText(px), e.catText(py)), nil)
+}
+
+func (e *Engine) catText(parts []Value) *Term {
+	ts := make([]*Term, 0, len(parts))
+	for _, p := range parts {
+		if o, ok := p.(*OpaqueStr); ok {
+			if e.opaqueText == nil {
+				e.opaqueText = map[*OpaqueStr]*Term{}
+			}
+			t := e.opaqueText[o]
+			if t == nil {
+				t = e.freshAux("opaquetext", sortStr)
+				e.assumeTermAlways(e.ts.mk(sortBool, "<=", e.ts.Int(1), e.ts.mk(sortInt, "str.len", t)))
+				e.opaqueText[o] = t
+			}
+			ts = append(ts, t)
+			continue
+		}
+		ts = append(ts, e.strTerm(normStr(p)))
+	}
+	if len(ts) == 1 {
+		return ts[0]
+	}
+	return e.ts.StrConcat(ts...)
 }
